@@ -144,7 +144,8 @@ def constdef_task(bits):
     res = TaskResult('constdef')
     pl = Pipeline()
     prof = common.FuncProfile()
-    lines = ['A = @V@'] + ['%s = %s' % (n, e) for n, e, _ in OPS] + ['Q = B + C - M', 'dw H']
+    lines = ['A = @V@'] + ['%s = %s' % (n, e) for n, e, _ in OPS] + ['Q = B + C - M', 'dw H',
+                                                                       'R = 0', 'R = R + 1', 'R = R + A', 'S = 5', 'S = B', 'db R & 1']
     src = '\n'.join(lines)
     x = core.Explorer(timeout_ms=120000)
 
@@ -182,6 +183,8 @@ def constdef_task(bits):
         for n, e, f in OPS:
             want[n] = f(a)
         want['Q'] = want['B'] + want['C'] - want['M']
+        want['R'] = a + 1            # a name defined again takes the value of its latest definition
+        want['S'] = want['B']
         if len(res['samples']) < 1:
             res['samples'].append(dict(source=lines, V=core.concrete(p.notes['markers']['V'], model), constants=real[3]))
         for n, w in want.items():
@@ -203,6 +206,8 @@ def constdef_task(bits):
                 for nn, ee, _ in OPS:
                     env[nn] = eval(ee, {'__builtins__': {}}, env)
                 env['Q'] = env['B'] + env['C'] - env['M']
+                env['R'] = cv + 1
+                env['S'] = env['B']
                 expect = env[n]
                 if rr[0] != 'ok' or rr[3].get(n) != expect:
                     path = common.write_replay('C11', 'constdef_' + n, dict(kind='program', property='C11', source=src.replace('@V@', str(cv)), what='constant %s: got %r, integer arithmetic gives %r' % (n, rr[3].get(n) if rr[0] == 'ok' else rr, expect)))
